@@ -1,6 +1,11 @@
-import sys
+import sys, json, os
+# usage: agent_prompt.py <Cxx> [extra sentence appended to the task]  - prints the prompt for a seeding sub-agent;
+# the agent receives only the property text (pasted here), never a path into /verif
 pid=sys.argv[1]
-prop=open('/tmp/prop_%s.txt'%pid).read()
+extra=sys.argv[2] if len(sys.argv) > 2 else ""
+d=[json.loads(l) for l in open(os.path.join(os.path.dirname(os.path.abspath(__file__)), '..', 'properties.jsonl')) if l.strip()]
+p=[x for x in d if x['id']==pid][0]
+prop=json.dumps({k:p[k] for k in ('id','title','statement','quantifier','why_tests_cant','anchors') if k in p}, indent=1)
 print(f"""You are testing a verification effort by acting as an adversarial-but-realistic developer of the C++/Qt library nitroshare/qmdnsengine (multicast DNS, RFC 6762).
 
 Your own private git worktree of the library is at /tmp/wt_{pid} (a checkout of the current source). Work ONLY inside /tmp/wt_{pid}. Never read or write /repo or /verif (they are off limits), and do not look for any verification tooling.
@@ -12,7 +17,7 @@ Here is a semantic property the library is supposed to satisfy:
 TASK: produce ONE source change to the library (files under /tmp/wt_{pid}/src) that BREAKS this property while
   (a) the library still compiles, and
   (b) the repository's existing test suite still passes completely, and
-  (c) the breakage needs something specific to manifest - a particular interleaving or timing, a multi-step sequence of operations, an unusual-but-legal input, a boundary value, or two cooperating edits that each look fine alone. Do NOT produce a change that ordinary use would expose at once (e.g. not "always return false"). It should look like a plausible refactoring, optimisation or bug-fix gone slightly wrong, ideally 1-15 changed lines.
+  (c) the breakage needs something specific to manifest - a particular interleaving or timing, a multi-step sequence of operations, an unusual-but-legal input, a boundary value, or two cooperating edits that each look fine alone. Do NOT produce a change that ordinary use would expose at once (e.g. not "always return false"). It should look like a plausible refactoring, optimisation or bug-fix gone slightly wrong, ideally 1-15 changed lines. {extra}
 
 How to build and test (Qt 5.15, cmake, ninja are installed; no network):
   cmake -S /tmp/wt_{pid} -B /tmp/wt_{pid}/_b -G Ninja -DBUILD_TESTS=ON >/dev/null && cmake --build /tmp/wt_{pid}/_b -j8 && ctest --test-dir /tmp/wt_{pid}/_b -j8 --timeout 900
